@@ -135,6 +135,74 @@ def build() -> Check:
     want = {"execution_state": "state", "parent_id": "op.parent_id", "operation_id": "op.operation_id", "name": "op.name", "attempt": "attempt"}
     ok = bool(trs) and all(t.outcome == "return" and isinstance(t.value, Obj) and all(t.value.fields.get(k, NONE).key() == v for k, v in want.items()) for t in trs)
     ck.ob("R1.log-info-from-identifier", fn_construct(foi) if foi else "logger.py:LogInfo.from_operation_identifier", ok, "LogInfo does not copy the operation's identifiers")
+    # the context's own logger: wherever DurableContext builds one (constructor, set_logger, child contexts) the LogInfo names the execution state
+    # and the id of the operation that encloses the context
+    ctxc = prog.cls("context", "DurableContext")
+    wli = lg.methods.get("with_log_info")
+
+    def h_capture(kind):
+        def h(it, fn, sv, a, k, n):
+            info = k.get("info", a[-1] if a else NONE)
+            it.emit("LOGINFO", n, via=kind, info=info)
+            return Sym(f"logger<{kind}>", TypeRef(classes=(lg.fq,)))
+        return h
+
+    def ctx_self(it, state):
+        o = Obj(ctxc, label="ctx")
+        init = ctxc.methods["__init__"]
+        kw = {}
+        for p_ in init.node.args.args[1:]:
+            kw[p_.arg] = state if p_.arg == "state" else (Sym("P", TypeRef(prim="str")) if p_.arg == "parent_id" else (NONE if p_.arg == "logger" else Sym(f"init.{p_.arg}")))
+        it.call_function(init, o, [], kw, None, None, None)
+        it.events.clear()
+        return o
+
+    hooks_li = {fli.fq: h_capture("from_log_info")}
+    if wli is not None:
+        hooks_li[wli.fq] = h_capture("with_log_info")
+    sites = []
+    init_ = ctxc.methods["__init__"]
+
+    def kw_init(it, state):
+        return {p_.arg: (state if p_.arg == "state" else Sym("P", TypeRef(prim="str")) if p_.arg == "parent_id" else NONE if p_.arg == "logger" else Sym(f"init.{p_.arg}"))
+                for p_ in init_.node.args.args[1:]}
+
+    sites.append(("__init__", pm.run_function(init_, lambda it, state: Obj(ctxc, label="ctx"), kw_init, cell=("DurableContext", "__init__"), extra_hooks=hooks_li), "P"))
+    if "set_logger" in ctxc.methods:
+        m_ = ctxc.methods["set_logger"]
+        pn_ = [p_.arg for p_ in m_.node.args.args if p_.arg != "self"][0]
+        sites.append(("set_logger", pm.run_function(m_, ctx_self, lambda it, state: {pn_: Sym("user_logger")}, cell=("DurableContext", "set_logger"), extra_hooks=hooks_li), "P"))
+    if "create_child_context" in ctxc.methods:
+        m_ = ctxc.methods["create_child_context"]
+        pn_ = [p_.arg for p_ in m_.node.args.args if p_.arg != "self"][0]
+        init_fq = init_.fq
+
+        def h_ctor(it, fn, sv, a, k, n):
+            lgv = k.get("logger")
+            it.emit("CHILDCTX", n, parent=k.get("parent_id", NONE).key(), logger=lgv.key() if lgv is not None else "None")
+            return NONE
+        sites.append(("create_child_context", pm.run_function(m_, ctx_self, lambda it, state: {pn_: Sym("CID", TypeRef(prim="str"))}, cell=("DurableContext", "create_child_context"),
+                                                              extra_hooks={**hooks_li, init_fq: h_ctor}), "CID"))
+    n_li = 0
+    for mname, trs_, want_parent in sites:
+        badl = []
+        for t in trs_:
+            evs_ = [e for e in t.events if e.kind == "LOGINFO"]
+            n_li += len(evs_)
+            if t.outcome != "return":
+                continue
+            if not evs_:
+                badl.append(f"{mname} builds no logger from a LogInfo")
+            for e in evs_:
+                info = e.data["info"]
+                pid_ = info.fields.get("parent_id", NONE).key() if isinstance(info, Obj) else "?"
+                st_k = info.fields.get("execution_state", NONE).key() if isinstance(info, Obj) else "?"
+                if pid_ != want_parent:
+                    badl.append(f"{mname}: the logger's LogInfo carries parent id {pid_}, not {want_parent} (records would lose the enclosing operation's identifier)")
+                if st_k != "state":
+                    badl.append(f"{mname}: the logger's LogInfo carries execution state {st_k}")
+        ck.ob("R1.context-logger-carries-enclosing-id", f"context.py:DurableContext.{mname}", not badl, "; ".join(badl[:2]))
+    ck.floor("context_logger_sites", n_li, 3)
     sl = lg.methods.get("_should_log")
     ck.ob("R1.gate-is-not-replaying", fn_construct(sl) if sl else "logger.py:Logger._should_log",
           sl is not None and ast.unparse(sl.node.body[-1]).replace(" ", "") == "returnnotself._execution_state.is_replaying()", "Logger._should_log must be `not state.is_replaying()`")
